@@ -7,6 +7,8 @@ import BytomModel.Model.Entry
 import BytomModel.Gen.HashFields
 import BytomModel.Model.MerkleShape
 import BytomModel.Gen.MerkleShape
+import BytomModel.Model.IdPathFacts
+import BytomModel.Gen.IdPathConversions
 
 namespace BytomModel.Ties.C03
 open BytomModel.Entry
@@ -32,5 +34,11 @@ theorem merkle_root_shape_tie :
 theorem merkle_no_concurrency_tie :
     BytomModel.MerkleShape.funcs = BytomModel.Gen.MerkleShape.funcs ∧
     BytomModel.Gen.MerkleShape.goStatements = 0 ∧ BytomModel.Gen.MerkleShape.syncImports = 0 := by decide
+
+/-- no integer field is narrowed on its way into an entry id: the conversions and the narrow
+    integer parameters of the mapping code are exactly the (widening / tag) ones the model assumes -/
+theorem id_path_conversions_tie :
+    BytomModel.IdPathFacts.conversions = BytomModel.Gen.IdPathConversions.conversions ∧
+    BytomModel.IdPathFacts.narrowIntegers = BytomModel.Gen.IdPathConversions.narrowIntegers := by decide
 
 end BytomModel.Ties.C03
